@@ -12,6 +12,7 @@ import (
 	"encoding/json"
 	"errors"
 	"fmt"
+	"io/fs"
 	"math"
 	"os"
 	"path/filepath"
@@ -25,6 +26,7 @@ import (
 	"github.com/notaryproject/notation-go/verifier/trustpolicy"
 	"github.com/opencontainers/go-digest"
 	ocispec "github.com/opencontainers/image-spec/specs-go/v1"
+	"oras.land/oras-go/v2/errdef"
 	orasreg "oras.land/oras-go/v2/registry"
 )
 
@@ -57,6 +59,14 @@ type c10Case struct {
 	ListErr    bool    `json:"list_error"`
 	WithMeta   bool    `json:"with_metadata"`
 	RealRepo   bool    `json:"real_oci_repo"`
+	// dimensions that do not change the model's input class (the model is told the class the oracle reports)
+	Prior           []*c10Case `json:"prior_calls,omitempty"`       // earlier Verify calls made on the SAME verifier and repository instances (history)
+	Resolved        string     `json:"resolved_variant,omitempty"`  // digest the repository resolves to: "" = the sample digest, upper / longer / shorter / algo / space / other
+	FetchErr        int        `json:"fetch_error_flavour"`         // 0 plain, 1 wraps errdef.ErrNotFound, 2 fs.ErrNotExist path error, 3 context.DeadlineExceeded
+	EmptyMeta       bool       `json:"empty_nonnil_maps,omitempty"` // PluginConfig / UserMetadata are empty non-nil maps (instead of nil)
+	NilPages        bool       `json:"nil_pages,omitempty"`         // empty pages are handed over as nil slices
+	SkipNilLevel    bool       `json:"skip_nil_level,omitempty"`    // SkipVerify answers (true, nil, nil)
+	SkipTrueWithErr bool       `json:"skip_true_with_error,omitempty"` // SkipVerify answers (true, level, err)
 	// observation
 	Res      string   `json:"obs_result"`
 	Desc     string   `json:"obs_descriptor"`
@@ -153,6 +163,9 @@ func (r mockRepo) ListSignatures(ctx context.Context, desc ocispec.Descriptor, f
 		page := make([]ocispec.Descriptor, len(p))
 		copy(page, w.manifest[pos:pos+len(p)])
 		pos += len(p)
+		if len(p) == 0 && w.c.NilPages {
+			page = nil
+		}
 		if err := fn(page); err != nil {
 			return err
 		}
@@ -172,6 +185,14 @@ func (r mockRepo) FetchSignatureBlob(ctx context.Context, desc ocispec.Descripto
 		return nil, ocispec.Descriptor{}, errors.New("mock: unknown signature manifest")
 	}
 	if w.kinds[k] == kU {
+		switch w.c.FetchErr {
+		case 1:
+			return nil, ocispec.Descriptor{}, fmt.Errorf("mock: blob of signature %d: %w", k, errdef.ErrNotFound)
+		case 2:
+			return nil, ocispec.Descriptor{}, &fs.PathError{Op: "open", Path: fmt.Sprintf("blobs/sha256/sig%d", k), Err: fs.ErrNotExist}
+		case 3:
+			return nil, ocispec.Descriptor{}, context.DeadlineExceeded
+		}
 		return nil, ocispec.Descriptor{}, fmt.Errorf("mock: blob of signature %d is gone", k)
 	}
 	w.fetched[k] = w.blobMT[k]
@@ -233,6 +254,9 @@ func (v *skipVerifier) SkipVerify(ctx context.Context, opts notation.VerifierVer
 	w.checkOpts("SkipVerify", opts, "")
 	switch w.c.Skip {
 	case "SkipErr":
+		if w.c.SkipTrueWithErr {
+			return true, w.level, w.skipErr
+		}
 		return false, nil, w.skipErr
 	case "SkipYes":
 		return true, w.level, nil
@@ -242,22 +266,70 @@ func (v *skipVerifier) SkipVerify(ctx context.Context, opts notation.VerifierVer
 
 // ---------- one case on the mock repository ----------
 
+const c10Hex = "9834876dcfb05cb167a5c24953eba58c4ac89b1adf57f28f2f9d09af107ee8f0"
+
+// resolvedDigest is what the scripted repository resolves to. Every variant
+// but "" differs, as a string, from the sample digest c10D1.
+func resolvedDigest(variant string) digest.Digest {
+	switch variant {
+	case "upper":
+		return digest.Digest("sha256:" + strings.ToUpper(c10Hex))
+	case "longer":
+		return digest.Digest(c10D1 + "00")
+	case "shorter":
+		return digest.Digest(c10D1[:len(c10D1)-2])
+	case "algo":
+		return digest.Digest("sha512:" + c10Hex)
+	case "space":
+		return digest.Digest(c10D1 + " ")
+	case "other":
+		return digest.FromString("c10-another-artifact")
+	}
+	return digest.Digest(c10D1)
+}
+
 func newWorld(c *c10Case) *world {
-	w := &world{c: c, argsOK: true, fetched: map[int]string{}}
-	w.resolved = ocispec.Descriptor{MediaType: "application/vnd.oci.image.manifest.v1+json", Digest: digest.Digest(c10D1), Size: 528}
+	w := &world{}
 	w.skipErr = errors.New("mock: trust policy unreadable")
 	w.listErr = errors.New("mock: referrers API failed")
 	w.resolvErr = errors.New("mock: resolve failed")
-	lv := *trustpolicy.LevelSkip
-	w.level = &lv
+	w.script(c)
+	return w
+}
+
+// script (re)programs the world for one Verify call. The verifier and the
+// repository instances that point to the world stay the same (histories); the
+// signature at position k keeps its manifest descriptor and blob across calls,
+// outcomes are fresh objects for every call.
+func (w *world) script(c *c10Case) {
+	w.c = c
+	w.events, w.argsOK, w.notes, w.fetched = nil, true, nil, map[int]string{}
+	w.resolved = ocispec.Descriptor{MediaType: "application/vnd.oci.image.manifest.v1+json", Digest: resolvedDigest(c.Resolved), Size: 528}
 	if c.WithMeta {
-		w.plugin = map[string]string{"pk": "pv"}
-		w.meta = map[string]string{"mk": "mv"}
+		// a descriptor with every optional field set: a copy that drops fields is visible
+		w.resolved.ArtifactType = "application/vnd.c10.artifact"
+		w.resolved.Annotations = map[string]string{"org.opencontainers.image.created": "2024-01-01T00:00:00Z", "c10": ""}
+		w.resolved.URLs = []string{"https://mirror.example/c10"}
+		w.resolved.Platform = &ocispec.Platform{Architecture: "amd64", OS: "linux"}
 	}
+	w.level = nil
+	if !c.SkipNilLevel {
+		lv := *trustpolicy.LevelSkip
+		w.level = &lv
+	}
+	w.plugin, w.meta = nil, nil
+	if c.WithMeta {
+		w.plugin = map[string]string{"pk": "pv", "empty": ""}
+		w.meta = map[string]string{"mk": "mv"}
+	} else if c.EmptyMeta {
+		w.plugin = map[string]string{}
+		w.meta = map[string]string{}
+	}
+	w.kinds = nil
 	for _, p := range c.Pages {
 		w.kinds = append(w.kinds, p...)
 	}
-	for k := range w.kinds {
+	for k := len(w.manifest); k < len(w.kinds); k++ {
 		b := []byte(fmt.Sprintf("c10-signature-envelope-%d", k))
 		mt := "application/jose+json"
 		if k%2 == 1 {
@@ -265,13 +337,19 @@ func newWorld(c *c10Case) *world {
 		}
 		w.blob = append(w.blob, b)
 		w.blobMT = append(w.blobMT, mt)
-		w.manifest = append(w.manifest, ocispec.Descriptor{MediaType: "application/vnd.oci.image.manifest.v1+json",
-			ArtifactType: registry.ArtifactTypeNotation, Digest: digest.FromString(fmt.Sprintf("c10-signature-manifest-%d", k)), Size: int64(700 + k)})
-		w.outcome = append(w.outcome, &notation.VerificationOutcome{RawSignature: b, VerificationLevel: trustpolicy.LevelStrict})
+		m := ocispec.Descriptor{MediaType: "application/vnd.oci.image.manifest.v1+json",
+			ArtifactType: registry.ArtifactTypeNotation, Digest: digest.FromString(fmt.Sprintf("c10-signature-manifest-%d", k)), Size: int64(700 + k)}
+		if k%3 == 2 {
+			m.Annotations = map[string]string{"io.cncf.notary.x509chain.thumbprint#S256": "[]", "empty": ""}
+		}
+		w.manifest = append(w.manifest, m)
 		w.badErr = append(w.badErr, fmt.Errorf("mock: signature %d is not trusted", k))
 		w.nilErr = append(w.nilErr, fmt.Errorf("mock: verifier broke on signature %d", k))
 	}
-	return w
+	w.outcome = nil
+	for k := range w.manifest {
+		w.outcome = append(w.outcome, &notation.VerificationOutcome{RawSignature: w.blob[k], VerificationLevel: trustpolicy.LevelStrict})
+	}
 }
 
 // classifyRef asks oras (the oracle) what the reference is.
@@ -294,32 +372,46 @@ func classifyRef(ref string, resolvedDigest string) (class string, wantRef strin
 
 func execMock(c *c10Case) (panicked any) {
 	w := newWorld(c)
-	c.RefClass, w.wantRef = classifyRef(c.Ref, w.resolved.Digest.String())
-	var v notation.Verifier
-	var repo registry.Repository
-	if !c.NilV {
-		if c.Skip == "NoSkipper" {
-			v = &plainVerifier{w}
-		} else {
-			v = &skipVerifier{plainVerifier{w}}
+	// ONE verifier and ONE repository instance for the whole history
+	var vInst notation.Verifier
+	if c.Skip == "NoSkipper" {
+		vInst = &plainVerifier{w}
+	} else {
+		vInst = &skipVerifier{plainVerifier{w}}
+	}
+	var rInst registry.Repository = mockRepo{w}
+	call := func(c *c10Case) (panicked any) {
+		w.script(c)
+		c.RefClass, w.wantRef = classifyRef(c.Ref, w.resolved.Digest.String())
+		var v notation.Verifier
+		var repo registry.Repository
+		if !c.NilV {
+			v = vInst
+		}
+		if !c.NilR {
+			repo = rInst
+		}
+		opts := notation.VerifyOptions{ArtifactReference: c.Ref, MaxSignatureAttempts: int(c.Max), PluginConfig: w.plugin, UserMetadata: w.meta}
+		var desc ocispec.Descriptor
+		var outs []*notation.VerificationOutcome
+		var err error
+		func() {
+			defer func() { panicked = recover() }()
+			desc, outs, err = notation.Verify(context.Background(), v, repo, opts)
+		}()
+		if panicked != nil {
+			return panicked
+		}
+		c.Res, c.Desc, c.Outs, c.Log, c.ArgNotes, c.ErrText = "", "", "", nil, nil, ""
+		observe(c, w, desc, outs, err, func(k int) int { return k })
+		return nil
+	}
+	for _, p := range c.Prior {
+		if pan := call(p); pan != nil {
+			return fmt.Sprintf("in an earlier call of the history: %v", pan)
 		}
 	}
-	if !c.NilR {
-		repo = mockRepo{w}
-	}
-	opts := notation.VerifyOptions{ArtifactReference: c.Ref, MaxSignatureAttempts: int(c.Max), PluginConfig: w.plugin, UserMetadata: w.meta}
-	var desc ocispec.Descriptor
-	var outs []*notation.VerificationOutcome
-	var err error
-	func() {
-		defer func() { panicked = recover() }()
-		desc, outs, err = notation.Verify(context.Background(), v, repo, opts)
-	}()
-	if panicked != nil {
-		return panicked
-	}
-	observe(c, w, desc, outs, err, func(k int) int { return k })
-	return nil
+	return call(c)
 }
 
 // observe canonicalises what Verify returned. pos maps a signature number of
@@ -496,6 +588,12 @@ func caseTerm(id int64, c *c10Case) string {
 
 // ---------- generators ----------
 
+// caseKey identifies the input of one call (for the count of distinct cases)
+func caseKey(c *c10Case) string {
+	return fmt.Sprintf("%v|%v|%d|%s|%s|%s|%s|%v|%v|%v|%v|%d|%v|%v|%v|%v", c.NilV, c.NilR, c.Max, c.Skip, c.RefClass, c.Ref, c.Resolved, c.ResolveErr, c.Pages, c.ListErr, c.RealRepo,
+		c.FetchErr, c.EmptyMeta, c.NilPages, c.SkipNilLevel, c.SkipTrueWithErr)
+}
+
 func compositions(n int) [][]int {
 	if n == 0 {
 		return [][]int{{}}
@@ -546,7 +644,7 @@ func runC10(a *Args) error {
 	prelude := "From NV Require Import Base C10_Model.\n"
 	w := NewCaseWriter(a, "C10", prelude, "case", "run")
 	quick := a.Tier != "thorough"
-	w.Rule = "the real notation.Verify driven by a scripted registry.Repository and Verifier. Family A (exhaustive, seed-independent): every listing of n signatures over {verifies, fails, unfetchable, fails-without-outcome} x every composition of n into non-empty pages x every limit 1..n+1 (quick: n<=3 over 4 kinds exhaustively, plus seeded samples of n=4 over 4 kinds and n=5,6 over {verifies, fails, unfetchable} with limits around the decisive position and the end of the listing; thorough: n<=5 over 4 kinds exhaustively, seeded samples of n=6,7 over 3 kinds with all limits). Family B: empty pages inserted at every position. Family C: nil arguments, non-positive and huge limits, the four SkipVerify behaviours, tag / matching-digest / mismatching-digest / tagless / malformed references (classified by oras ParseReference itself), Resolve and ListSignatures failures, crossed with 8 representative listings. Family D: random listings of up to 14 signatures (mostly failing, so that the limit decides), random pagings with empty pages, random limits. Family E: the real OCI-layout repository of notation-go/registry, signatures pushed with PushSignature, blobs deleted to make them unfetchable, listing order as delivered by the repository. non-trivial = the listing is reached and holds at least 2 signatures, or the case exercises a skip / pin / limit<=0 rule; distinct = distinct (arguments, reference class, paged listing, limit) tuples"
+	w.Rule = "the real notation.Verify driven by a scripted registry.Repository and Verifier. Family A (exhaustive, seed-independent): every listing of n signatures over {verifies, fails, unfetchable, fails-without-outcome} x every composition of n into non-empty pages x every limit 1..n+1 (quick: n<=3 over 4 kinds exhaustively, plus seeded samples of n=4 over 4 kinds and n=5,6 over {verifies, fails, unfetchable} with limits around the decisive position and the end of the listing; thorough: n<=5 over 4 kinds exhaustively, seeded samples of n=6,7 over 3 kinds with all limits). Family B: empty pages inserted at every position. Family C: nil arguments, non-positive and huge limits, the four SkipVerify behaviours, tag / matching-digest / mismatching-digest / tagless / malformed references (classified by oras ParseReference itself), Resolve and ListSignatures failures, crossed with 8 representative listings. Family D: random listings of up to 14 signatures (mostly failing, so that the limit decides), random pagings with empty pages, random limits. Family H (first): histories of 2-4 Verify calls on ONE verifier and ONE repository instance whose script changes between the calls (pass then fail, fail then pass, limit / reference / resolved digest / skip changed: all ordered pairs of 16 call templates plus random histories of 3-4), each case being the last call judged on its own input. Family F: n=5..8 failing signatures with one verifying / unfetchable / outcome-less signature at EVERY position, limits below / at / beyond it, page breaks before / at / after it; and a good signature with a second odd one before or after it. Family R: 36 rarely used or nearly legal reference spellings (upper-case host, IPv6, tag+digest, several '@', sha512, upper-case hex, trailing space, empty tag or digest) x the digest the repository resolves to (equal, upper-cased, longer, shorter, other algorithm, trailing space, other). Unfetchable signatures fail with four error flavours (plain, errdef.ErrNotFound, fs.ErrNotExist, deadline); empty pages as nil or empty slices; PluginConfig/UserMetadata nil, empty or filled; SkipVerify answering a nil level or (true, err). Family E: the real OCI-layout repository of notation-go/registry, signatures pushed with PushSignature, blobs deleted to make them unfetchable, listing order as delivered by the repository. non-trivial = the listing is reached and holds at least 2 signatures, or the case exercises a skip / pin / limit<=0 rule; distinct = distinct (arguments, reference class, paged listing, limit) tuples"
 	w.Assumptions = []string{
 		"Repository.ListSignatures hands the callback consecutive pages in listing order and returns the callback's first error (contract of registry.Repository; the scripted repository and the real OCI-layout repository both do)",
 		"reference classes (invalid / no tag or digest / tag / digest) are those reported by oras registry.ParseReference and ValidateReferenceAsDigest, asked by the harness for every reference string",
@@ -571,7 +669,10 @@ func runC10(a *Args) error {
 		for _, p := range c.Pages {
 			n += len(p)
 		}
-		key := fmt.Sprintf("%v|%v|%d|%s|%s|%v|%v|%v|%v", c.NilV, c.NilR, c.Max, c.Skip, c.RefClass, c.ResolveErr, c.Pages, c.ListErr, c.RealRepo)
+		key := caseKey(c)
+		for _, p := range c.Prior {
+			key = caseKey(p) + " ; " + key
+		}
 		if pan != nil {
 			c.Res = "panic"
 			w.ImplViolation(my, fmt.Sprintf("notation.Verify panicked: %v", pan), c, "panic")
@@ -579,9 +680,14 @@ func runC10(a *Args) error {
 			return
 		}
 		reaches := !c.NilV && !c.NilR && c.Max > 0 && (c.Skip == "NoSkipper" || c.Skip == "SkipNo") && (c.RefClass == "RTag" || c.RefClass == "RDigSame") && !c.ResolveErr
-		nontriv := (reaches && n >= 2) || (!c.NilV && !c.NilR && (c.Max <= 0 || c.Skip == "SkipYes" || c.RefClass == "RDigDiff" || c.RefClass == "RNone"))
+		nontriv := (reaches && (n >= 2 || len(c.Prior) > 0)) || (!c.NilV && !c.NilR && (c.Max <= 0 || c.Skip == "SkipYes" || c.RefClass == "RDigDiff" || c.RefClass == "RNone"))
 		w.Add(my, caseTerm(my, c), c, key, nontriv)
 		w.Count("family", c.Family)
+		w.Count("history_len", fmt.Sprint(len(c.Prior)+1))
+		w.Count("resolved_variant", "v:"+c.Resolved)
+		if n > 0 {
+			w.Count("fetch_error_flavour", fmt.Sprint(c.FetchErr))
+		}
 		w.Count("listing_len", fmt.Sprint(n))
 		w.Count("pages", fmt.Sprint(len(c.Pages)))
 		w.Count("ref_class", c.RefClass)
@@ -607,7 +713,10 @@ func runC10(a *Args) error {
 		return Pick(rng, sameRefs)
 	}
 	listingCase := func(fam string, pages [][]int, max int64) *c10Case {
-		return &c10Case{Family: fam, Max: max, Skip: Pick(rng, reachSkip), Ref: reachRef(), Pages: pages, ListErr: rng.Chance(1, 8), WithMeta: rng.Bool()}
+		c := &c10Case{Family: fam, Max: max, Skip: Pick(rng, reachSkip), Ref: reachRef(), Pages: pages, ListErr: rng.Chance(1, 8), WithMeta: rng.Bool(),
+			FetchErr: rng.Intn(4), NilPages: rng.Bool()}
+		c.EmptyMeta = !c.WithMeta && rng.Bool()
+		return c
 	}
 
 	// corpus first
@@ -632,6 +741,77 @@ func runC10(a *Args) error {
 				}
 				emit(&c)
 			}
+		}
+	}
+
+	// H. histories: 2-4 Verify calls on ONE verifier instance and ONE repository instance, the
+	// expected verdict changing between the calls; every case is the LAST call of its history,
+	// judged on its own input (the model is stateless); replay re-runs the earlier calls first.
+	// This family comes first so that a regression that keeps state across calls is reported
+	// with a history that reproduces it.
+	type tmpl func(plain bool) *c10Case
+	hcase := func(plain bool, ref string, max int64, pages [][]int) *c10Case {
+		sk := "SkipNo"
+		if plain {
+			sk = "NoSkipper"
+		}
+		return &c10Case{Family: "H", Max: max, Skip: sk, Ref: ref, Pages: pages}
+	}
+	tagRef, digRef := tagRefs[0], sameRefs[0]
+	tmpls := []tmpl{
+		func(p bool) *c10Case { return hcase(p, tagRef, 2, [][]int{{kG}}) },                // ok with signature 0
+		func(p bool) *c10Case { return hcase(p, tagRef, 2, [][]int{{kBd}}) },               // signature 0 now fails
+		func(p bool) *c10Case { return hcase(p, tagRef, 2, [][]int{{kBd}, {kG}}) },         // ok with signature 1
+		func(p bool) *c10Case { return hcase(p, tagRef, 1, [][]int{{kBd}, {kG}}) },         // same listing, smaller limit
+		func(p bool) *c10Case { return hcase(p, tagRef, 3, [][]int{{kU}, {kG}}) },          // signature 0 no longer fetchable
+		func(p bool) *c10Case { return hcase(p, tagRef, 3, [][]int{}) },                    // no signature any more
+		func(p bool) *c10Case { return hcase(p, digRef, 1, [][]int{{kG}}) },                // digest reference, matching
+		func(p bool) *c10Case { c := hcase(p, digRef, 1, [][]int{{kG}}); c.Resolved = "other"; return c }, // the repository now resolves it elsewhere
+		func(p bool) *c10Case { c := hcase(p, tagRef, 2, [][]int{{kG}}); c.Resolved = "other"; c.WithMeta = true; return c }, // the tag moved
+		func(p bool) *c10Case { c := hcase(p, tagRef, 2, [][]int{{kG}}); c.ResolveErr = true; return c },
+		func(p bool) *c10Case { // skip (or, without SkipVerify, a non-positive limit)
+			c := hcase(p, tagRef, 2, [][]int{{kBd}})
+			if p {
+				c.Max = 0
+			} else {
+				c.Skip = "SkipYes"
+			}
+			return c
+		},
+		func(p bool) *c10Case { return hcase(p, tagRef, 3, [][]int{{kG, kBd}}) },
+		func(p bool) *c10Case { return hcase(p, tagRef, 3, [][]int{{kBd, kBd}, {kG}}) },
+		func(p bool) *c10Case { c := hcase(p, tagRef, 3, [][]int{{kBd}}); c.ListErr = true; return c },
+		func(p bool) *c10Case { return hcase(p, diffRefs[0], 3, [][]int{{kG}}) },           // digest reference, not matching
+		func(p bool) *c10Case { return hcase(p, tagRefs[1], 2, [][]int{{kBd, kG}}) },       // another repository name, same instance
+	}
+	for x := range tmpls {
+		for y := range tmpls {
+			plain := (x+y)%2 == 0
+			c := tmpls[y](plain)
+			c.Prior = []*c10Case{tmpls[x](plain)}
+			emit(c)
+		}
+	}
+	nH := 80
+	if !quick {
+		nH = 1500
+	}
+	for k := 0; k < nH; k++ {
+		plain := rng.Bool()
+		steps := 3 + rng.Intn(2)
+		var hist []*c10Case
+		for j := 0; j < steps; j++ {
+			c := Pick(rng, tmpls)(plain)
+			c.WithMeta = c.WithMeta || rng.Bool()
+			c.FetchErr = rng.Intn(4)
+			if j >= 2 {
+				c.Prior = append([]*c10Case{}, hist...)
+				emit(c)
+			}
+			// the copy kept in the history is a fresh object (observations of prior calls are written into it)
+			cp := *c
+			cp.Prior = nil
+			hist = append(hist, &cp)
 		}
 	}
 
@@ -695,6 +875,120 @@ func runC10(a *Args) error {
 	w.Exhaustive = false
 	w.Set("exhaustive_part", fmt.Sprintf("family A: all listings of n<=%d signatures over 4 kinds x all compositions into non-empty pages x all limits 1..n+1 (seed-independent); sampled beyond, up to n=%d", exh4, maxN))
 
+	// F. the odd element at EVERY position of a longer listing: n-1 failing signatures and one
+	// signature that verifies / cannot be fetched / fails without outcome at position p, limits just
+	// below, at and beyond p, four pagings that put the page break before, at and after p
+	fMax := 8
+	if !quick {
+		fMax = 12
+	}
+	for n := 5; n <= fMax; n++ {
+		for p := 0; p < n; p++ {
+			for _, odd := range []int{kG, kU, kNO} {
+				l := make([]int, n)
+				for i := range l {
+					l[i] = kBd
+				}
+				l[p] = odd
+				ones := make([]int, n)
+				for i := range ones {
+					ones[i] = 1
+				}
+				pagings := [][]int{{n}, ones}
+				if p > 0 {
+					pagings = append(pagings, []int{p, n - p}) // break right before p
+				} else {
+					pagings = append(pagings, []int{0, n})
+				}
+				if p+1 < n {
+					pagings = append(pagings, []int{p + 1, 0, n - p - 1}) // break (and an empty page) right after p
+				} else {
+					pagings = append(pagings, []int{n, 0})
+				}
+				for pi, sizes := range pagings {
+					for _, max := range []int{p, p + 1, n + 1} {
+						if max == 0 || (max == n+1 && pi != 0) {
+							continue
+						}
+						emit(listingCase("F", split(l, sizes), int64(max)))
+					}
+				}
+			}
+		}
+	}
+	// F2. which element matched, with a deviation before and after it: a good signature at p and a
+	// second odd one (good / unfetchable / no outcome) at q != p, limits at min+1 and max+1
+	for n := 5; n <= 6; n++ {
+		for p := 0; p < n; p++ {
+			for q := 0; q < n; q++ {
+				if p == q {
+					continue
+				}
+				for _, odd := range []int{kG, kU, kNO} {
+					if odd == kG && q < p {
+						continue // symmetric
+					}
+					l := make([]int, n)
+					for i := range l {
+						l[i] = kBd
+					}
+					l[p], l[q] = kG, odd
+					lo, hi := p, q
+					if q < p {
+						lo, hi = q, p
+					}
+					ones := make([]int, n)
+					for i := range ones {
+						ones[i] = 1
+					}
+					for _, sizes := range [][]int{ones, {lo + 1, hi - lo, n - hi - 1}, {n}} {
+						for _, max := range []int{lo + 1, hi + 1} {
+							if quick && n == 5 && !rng.Chance(1, 2) {
+								continue
+							}
+							emit(listingCase("F", split(l, sizes), int64(max)))
+						}
+					}
+				}
+			}
+		}
+	}
+
+	// R. rarely used but legal (and nearly legal) reference syntax, classified by oras itself, crossed
+	// with what the repository resolves to (for a digest reference every variant but "" must be refused)
+	upHex := strings.ToUpper(c10Hex)
+	oddRefs := []string{
+		"REG.EXAMPLE/app/c10:v1", "Reg.Example:5000/app/c10@" + c10D1, "reg.example:5000/app/c10:V1.0_rc-1", "[::1]:5000/c10:v1", "[::1]:5000/c10@" + c10D1,
+		"127.0.0.1:5000/c10:v1", "reg.example/c10:_leading", "reg.example/c10:" + strings.Repeat("a", 128), "reg.example/c10:" + strings.Repeat("a", 129),
+		"reg.example/a_b/c__d/e-f.g:latest", "reg.example/app/c10:v1@" + c10D1, "reg.example/app/c10:not a tag@" + c10D1, "reg.example/app/c10:v1:v2@" + c10D1,
+		"reg.example/app/c10@" + c10D1 + "@" + c10D1, "reg.example/app/c10@" + c10D2 + "@" + c10D1, "reg.example/app/c10@" + c10D1 + "@" + c10D2,
+		"reg.example/app/c10@sha256:" + upHex, "reg.example/app/c10@SHA256:" + c10Hex, "reg.example/app/c10@sha512:" + c10Hex + c10Hex, "reg.example/app/c10@sha512:" + c10Hex,
+		"reg.example/app/c10@" + c10D1 + " ", " reg.example/app/c10@" + c10D1, "reg.example/app/c10@" + c10D1 + "00", "reg.example/app/c10@" + c10D1[:len(c10D1)-2],
+		"reg.example/app/c10:", "reg.example/app/c10@", "reg.example/app/c10/", "reg.example/", "reg.example:5000", "reg.example/app/c10:v1@", "reg.example/app/c10:@" + c10D1,
+		"reg.example/app/c10:sha256", "reg.example/app/c10:" + c10Hex, "reg.example/app:v1/c10", "reg.example/app/c10:v1\n", "reg.example/app/c10:latest:" + c10D1,
+	}
+	variants := []string{"", "upper", "longer", "shorter", "algo", "space", "other"}
+	for ri, ref := range oddRefs {
+		for vi, variant := range variants {
+			if quick && vi > 0 && (ri+vi)%2 == 1 {
+				continue
+			}
+			c := listingCase("R", [][]int{{kBd}, {kG}}, 3)
+			c.Ref, c.Resolved, c.ListErr = ref, variant, false
+			emit(c)
+		}
+	}
+	// the usual references against every resolved variant, on listings that would succeed
+	for _, ref := range append(append(append([]string{}, tagRefs...), sameRefs...), diffRefs...) {
+		for _, variant := range variants[1:] {
+			for _, pages := range [][][]int{{{kG}}, {{kBd, kG}}} {
+				c := listingCase("R", pages, 2)
+				c.Ref, c.Resolved, c.ListErr = ref, variant, false
+				emit(c)
+			}
+		}
+	}
+
 	// B. empty pages inserted
 	bN := 3
 	if !quick {
@@ -756,7 +1050,11 @@ func runC10(a *Args) error {
 						continue
 					}
 					max := Pick(rng, []int64{1, 2, 3, math.MaxInt64})
-					emit(&c10Case{Family: "C", Max: max, Skip: sk, Ref: ref, Pages: pages, ResolveErr: rerr, ListErr: rng.Chance(1, 4), WithMeta: rng.Bool()})
+					c := &c10Case{Family: "C", Max: max, Skip: sk, Ref: ref, Pages: pages, ResolveErr: rerr, ListErr: rng.Chance(1, 4), WithMeta: rng.Bool(), FetchErr: rng.Intn(4)}
+					c.EmptyMeta = !c.WithMeta && rng.Bool()
+					c.SkipNilLevel = sk == "SkipYes" && rng.Bool()
+					c.SkipTrueWithErr = sk == "SkipErr" && rng.Bool()
+					emit(c)
 				}
 			}
 		}
